@@ -2,6 +2,7 @@
 
 #include <errno.h>
 #include <fcntl.h>
+#include <sys/syscall.h>
 #include <unistd.h>
 #include <stdlib.h>
 #include <string.h>
@@ -25,13 +26,13 @@ size_t _Hash_bytes(const void* ptr, size_t len, size_t seed) {
     // (plain system calls: the first call may come from inside a run, where fopen is the simulated file system's)
     char buf[8192];
     size_t n = 0;
-    { int fd = open("/proc/self/cmdline", O_RDONLY); if (fd >= 0) { ssize_t r = read(fd, buf, sizeof buf - 1); if (r > 0) n = static_cast<size_t>(r); close(fd); } }
+    { int fd = static_cast<int>(syscall(SYS_openat, AT_FDCWD, "/proc/self/cmdline", O_RDONLY)); if (fd >= 0) { ssize_t r = read(fd, buf, sizeof buf - 1); if (r > 0) n = static_cast<size_t>(r); close(fd); } }
     buf[n] = '\0';
     const char* args[64];
     int na = 0;
     for (size_t i = 0; i < n && na < 64; i += strlen(buf + i) + 1) { args[na++] = buf + i; if (strcmp(buf + i, "--weak-hash") == 0) return 1; }
     if (na >= 3 && strcmp(args[1], "replay") == 0) {   // a replay file says which hash its violation was found with
-      int fd = open(args[2], O_RDONLY);
+      int fd = static_cast<int>(syscall(SYS_openat, AT_FDCWD, args[2], O_RDONLY));
       if (fd >= 0) {
         static char text[1 << 18];
         size_t m = 0;
@@ -97,6 +98,17 @@ char* premain_getenv(const char* name) {
   if (strcmp(name, "TZDIR") == 0) return const_cast<char*>(tzdir);
   if (strcmp(name, "TZ") == 0) return const_cast<char*>(tz);
   return nullptr;   // LOCALTIME and everything else: unset
+}
+
+bool premain_exists(const char* path, bool* is_dir) {
+  *is_dir = false;
+  size_t n = strlen(path);
+  while (n > 1 && path[n - 1] == '/') --n;
+  for (const File& f : kFiles) {
+    if (strlen(f.path) == n && strncmp(f.path, path, n) == 0) return true;
+    if (strlen(f.path) > n && strncmp(f.path, path, n) == 0 && (f.path[n] == '/' || n == 1)) { *is_dir = true; return true; }
+  }
+  return false;
 }
 
 FILE* premain_fopen(const char* path) {
